@@ -513,18 +513,20 @@ func defaultRedirectTrailingSlashHandler(c Context) {
 		code = http.StatusPermanentRedirect
 	}
 
-	var url string
-	if len(req.URL.RawPath) > 0 {
-		url = FixTrailingSlash(req.URL.RawPath)
-	} else {
-		url = FixTrailingSlash(req.URL.Path)
-	}
+	// Build the relative target from the escaped path, so that reserved characters of the last segment
+	// (e.g. '?', '#', '%') keep their encoding in the Location header.
+	target := FixTrailingSlash(req.URL.EscapedPath())
 
-	if url[len(url)-1] == '/' {
-		localRedirect(c.Writer(), req, path.Base(url)+"/", code)
+	if target[len(target)-1] == '/' {
+		base := path.Base(target)
+		if strings.Contains(base, ":") {
+			// A relative reference whose first segment contains a colon would be read as a scheme.
+			base = "./" + base
+		}
+		localRedirect(c.Writer(), req, base+"/", code)
 		return
 	}
-	localRedirect(c.Writer(), req, "../"+path.Base(url), code)
+	localRedirect(c.Writer(), req, "../"+path.Base(target), code)
 }
 
 // ServeHTTP is the main entry point to serve a request. It handles all incoming HTTP requests and dispatches them
